@@ -92,6 +92,12 @@ def jsonOfResult : Except Err Val → Json
 def getS (j : Json) (k : String) : Except String St4sd.Str.S := do pure (← (← j.getObjVal? k).getStr?).toList
 def getN (j : Json) (k : String) : Except String Nat := do (← j.getObjVal? k).getNat?
 
+def getB (j : Json) (k : String) : Except String Bool := do (← j.getObjVal? k).getBool?
+
+/-- `{"raw":…, "incl":…, "prim":…, "inject":…}` -/
+def flagsOfJson (j : Json) : Except String Flags := do
+  pure ⟨← getB j "raw", ← getB j "incl", ← getB j "prim", ← getB j "inject"⟩
+
 def opOfJson (j : Json) : Except String Op := do
   let op ← (← j.getObjVal? "op").getStr?
   match op with
@@ -107,6 +113,10 @@ def opOfJson (j : Json) : Except String Op := do
   | "updateComp" => pure (.updateComp (← getN j "stage") (← getS j "name") (← fieldsOfJson (← j.getObjVal? "body")))
   | "deleteComp" => pure (.deleteComp (← getN j "stage") (← getS j "name"))
   | "query" => pure (.query (← getN j "stage") (← getS j "name") (← getS j "platform"))
+  | "queryF" => pure (.queryF (← getN j "stage") (← getS j "name") (← getS j "platform") (← flagsOfJson j))
+  | "read" => pure .read
+  | "touchComp" => pure (.touchComp (← getN j "stage") (← getS j "name"))
+  | "touchVars" => pure .touchVars
   | _ => throw s!"unknown op {op}"
 
 end St4sd.Tree
